@@ -28,14 +28,23 @@ def gen_cases(rng, tier):
             total += size
             srcs.append({"arg": gen_source_path(rng, used, longnames=True), "content": spec})
         cases.append({"sources": srcs, "verbose": rng.random() < 0.3, "archive": rng.choice(["t.k7", "o+/t.k7"])})
-    return cases, {"random": n}
+    # both sides of the capacity: the last usable byte is TAPE - 1; one byte more must not produce an archive at all
+    nf = scale(tier, 24, 400)
+    for _ in range(nf):
+        cases.append(c01.gen_frontier_case(rng, slacks=[-3, -2, -1, -1, 0, 0, 1, 2, 21, 22]))
+    for ln in (19809, 19810, 19811, 19812):
+        cases.append({"sources": [{"arg": "edge.bin", "content": {"rand": ln, "len": ln}}], "verbose": False, "archive": "t.k7"})
+    return cases, {"random": n, "capacity frontier (-3..+22 bytes)": nf, "fixed": 4}
 
 
 def oracle(case, obs, ctx):
     contents = obs["contents"]
-    if encoded_size(contents) >= TAPE:
-        return None
     raw = obs["archive_bytes"]
+    if encoded_size(contents) >= TAPE:
+        # the sources do not fit: whatever the tool answers, it must not leave a file that claims to be an archive of them
+        if raw is not None:
+            return {"an archive was written although the sources do not fit": len(raw), "encoded size": encoded_size(contents)}
+        return None
     if obs["create"].get("status") != 0 or raw is None:
         return {"create failed": [obs["create"].get("status"), obs["create"].get("exc"), obs["create"].get("msg")]}
     if len(raw) != TAPE:
